@@ -660,9 +660,8 @@ func (b *Batch) NumOpsTop() int { return len(b.Ops) }
 func (b *Batch) bytesTop() int {
 	n := 0
 	for _, kv := range b.Ops {
-		if kv.Reject {
-			continue
-		}
+		// rejected operations are appended to the buffer before they are
+		// refused, so they need room as well
 		n += len(kv.K) + len(kv.V)
 	}
 	return n
